@@ -36,6 +36,16 @@ const HOSTS: &[(&str, &str, &str)] = &[
     ("[::1]", "[::1]", "[::1]"),
     ("[2001:db8::1]", "[2001:db8::1]", "[2001:db8::1]"),
     ("localhost", "localhost", "localhost"),
+    // string-suffix traps: host text ends with another host's registrable domain without a label boundary
+    ("notexample.com", "notexample.com", "notexample.com"),
+    ("cdn.notexample.com", "cdn.notexample.com", "notexample.com"),
+    ("xexample.co.uk", "xexample.co.uk", "xexample.co.uk"),
+    ("another.org", "another.org", "another.org"),
+    ("afoo.bar", "afoo.bar", "afoo.bar"),
+    // hosts that are themselves public suffixes
+    ("github.io", "github.io", "github.io"),
+    ("co.uk", "co.uk", "co.uk"),
+    ("com", "com", "com"),
 ];
 
 const SCHEMES: &[&str] = &["http", "https", "ws", "wss", "ftp", "data", "file", "blob", "about", "chrome-extension", "HTTP", "Https"];
